@@ -245,6 +245,8 @@ def _families(rng):
                                      cirq.MutableDensePauliString("XZ", coefficient=1j), cirq.PauliString({q[0]: cirq.X, q[2]: cirq.Z}, coefficient=-0.5j),
                                      cirq.PauliStringPhasor(cirq.PauliString({q[0]: cirq.X}), qubits=q, exponent_neg=0.25, exponent_pos=-0.5), cirq.IdentityGate(2, qid_shape=(2, 3)),
                                      cirq.WaitGate(cirq.Duration(nanos=7.5), qid_shape=(3,)), cirq.BitMaskKeyCondition("m", index=1, target_value=2, equal_target=True, bitmask=3),
+                                     cirq.KeyCondition(cirq.MeasurementKey("m"), index=0), cirq.KeyCondition(cirq.MeasurementKey("m", path=("p",)), index=-2),
+                                     cirq.X(q[1]).with_classical_controls(cirq.KeyCondition(cirq.MeasurementKey("m"), index=0), cirq.BitMaskKeyCondition("k", index=0, bitmask=1)),
                                      cirq.CliffordGate.from_op_list([cirq.H(q[0]), cirq.CNOT(q[0], q[1])], q[:2]), cirq.SingleQubitCliffordGate.X_sqrt,
                                      cirq.Duration(picos=3), cirq.Duration(nanos=sympy.Symbol("t")), cirq.LinearDict({"X": 0.5 + 1j, "Z": -2}),
                                      cirq.MeasurementKey("m", path=("a", "b")), cirq.Linspace("a", 0, 1, 5, metadata="md"), cirq.Points("b", [1, 2.5], metadata=q[0]),
